@@ -6516,6 +6516,8 @@ impl RelationalEngine {
         // Mark as committing
         self.tx_manager.set_phase(tx_id, TxPhase::Committing);
 
+        #[cfg(feature = "neumann_verif")]
+        tensor_store::verif_hooks::yield_point("rel.commit.before_release");
 
         // Release locks
         self.tx_manager.release_locks(tx_id);
@@ -6555,10 +6557,14 @@ impl RelationalEngine {
         // Apply undo entries in reverse order, collecting any errors
         let mut all_errors: Vec<String> = Vec::new();
         for entry in undo_log.into_iter().rev() {
+            #[cfg(feature = "neumann_verif")]
+            tensor_store::verif_hooks::yield_point("rel.rollback.entry");
             let errors = self.apply_undo_entry(&entry);
             all_errors.extend(errors);
         }
 
+        #[cfg(feature = "neumann_verif")]
+        tensor_store::verif_hooks::yield_point("rel.rollback.before_release");
 
         // ALWAYS release locks and clean up, even if undo had errors
         self.tx_manager.release_locks(tx_id);
@@ -6823,6 +6829,8 @@ impl RelationalEngine {
             .or_insert_with(|| AtomicU64::new(0))
             .fetch_max(row_id, Ordering::Relaxed);
 
+        #[cfg(feature = "neumann_verif")]
+        tensor_store::verif_hooks::yield_point("rel.tx_insert.after_slab_insert");
 
         // Update indexes
         let indexed_columns = self.get_table_indexes(table);
@@ -6843,6 +6851,8 @@ impl RelationalEngine {
             }
         }
 
+        #[cfg(feature = "neumann_verif")]
+        tensor_store::verif_hooks::yield_point("rel.tx_insert.after_index");
 
         // Capture index entries for rollback (must happen AFTER index updates)
         let mut index_entries: Vec<(String, Value)> = Vec::new();
@@ -6933,6 +6943,8 @@ impl RelationalEngine {
             .collect();
         let matching_rows = matching_rows?;
 
+        #[cfg(feature = "neumann_verif")]
+        tensor_store::verif_hooks::yield_point("rel.tx_update.after_scan");
 
         // Acquire locks on all matching rows
         let rows_to_lock: Vec<(String, u64)> = matching_rows
@@ -6956,6 +6968,8 @@ impl RelationalEngine {
         // scan saw before the locks were held.
         let matching_rows = self.recheck_locked_rows(table, &schema, &condition, matching_rows)?;
 
+        #[cfg(feature = "neumann_verif")]
+        tensor_store::verif_hooks::yield_point("rel.tx_update.after_lock");
 
         // Convert updates to slab format
         let slab_updates: Vec<(String, SlabColumnValue)> = updates
@@ -6964,6 +6978,8 @@ impl RelationalEngine {
             .collect();
 
         for (slab_row_id, row, old_slab_values) in &matching_rows {
+            #[cfg(feature = "neumann_verif")]
+            tensor_store::verif_hooks::yield_point("rel.tx_update.row");
 
             // Capture index changes for undo
             let mut index_changes = Vec::new();
@@ -7059,6 +7075,8 @@ impl RelationalEngine {
             .collect();
         let to_delete = to_delete?;
 
+        #[cfg(feature = "neumann_verif")]
+        tensor_store::verif_hooks::yield_point("rel.tx_delete.after_scan");
 
         // Acquire locks on all rows to delete
         let rows_to_lock: Vec<(String, u64)> = to_delete
@@ -7082,8 +7100,12 @@ impl RelationalEngine {
         // scan saw before the locks were held.
         let to_delete = self.recheck_locked_rows(table, &schema, &condition, to_delete)?;
 
+        #[cfg(feature = "neumann_verif")]
+        tensor_store::verif_hooks::yield_point("rel.tx_delete.after_lock");
 
         for (slab_row_id, row, old_slab_values) in &to_delete {
+            #[cfg(feature = "neumann_verif")]
+            tensor_store::verif_hooks::yield_point("rel.tx_delete.row");
 
             // Capture index entries for undo
             let mut index_entries: Vec<(String, Value)> = Vec::new();
